@@ -77,9 +77,8 @@ Proof.
       pose proof (chain_ok_asc D HDok) as Hasc. rewrite Ez in Hasc, Hb0D. cbn [asc] in Hasc. destruct Hasc as [Hall _].
       destruct Hb0D as [<-|Hb0r]; [lia|]. rewrite Forall_forall in Hall. specialize (Hall b0 Hb0r). lia.
     - unfold merged in Hzin. apply filter_In in Hzin as [_ Hz]. apply N.ltb_lt in Hz. lia. }
-  assert (Hmode2 : (j_mode c =? 2) = false) by (rewrite Hmode; reflexivity).
   assert (Hstartle : exists b, In b canon /\ bnum b <= start) by (destruct Hstartblk as (b0 & H1 & H2); exists b0; split; [exact H1 | lia]).
-  destruct (stream_num U c canon start Hid Huniq Hup Hdecl Hfilter Hstop HcU Hcl Hstartle merged Hmode2 HmU
+  destruct (stream_num U c canon start Hid Huniq Hup Hdecl Hfilter Hstop HcU Hcl Hstartle merged HmU
               w ps merged_end forked Hmode eq_refl HW Htip Hagr (lnk_of_chain_ok D HDok) HbotD) as (st & Hst & Hfin).
   fold res in Hst, Hfin.
   assert (Hnu : Forall (fun e => nu_ev e = true) (fst res)).
